@@ -204,3 +204,31 @@ def sanitizer_presets(F, rep, rule, names):
         diff = {k: (got.get(k), v) for k, v in want.items() if got.get(k) != v}
         if diff: rep.bad(rule, "preset-config:" + nm, "Sanitizer::%s is configured with %s (got, expected): e.g. a max_length silently truncates identifiers" % (nm, diff), f.where())
         else: rep.ok(rule, "Sanitizer::%s = %s" % (nm, want), nontrivial_key="preset" + nm)
+
+
+def max_choice_shape(F, f):
+    """How a function picks the greatest element: ("max_by", None) for Iterator::max_by / max_by_key; for a hand-written loop
+    ("running-max", None) when each element is compared with the best one so far (a local that the loop itself re-assigns from
+    the element), ("fixed-compare", text) when it is compared with something the loop never updates; ("unknown", why) otherwise."""
+    import mir
+    if any((t[1].get("decl") or "") in ("std::iter::Iterator::max_by", "std::iter::Iterator::max_by_key", "std::iter::Iterator::max") for bi, t in f.calls()):
+        return "max_by", None
+    loop_blocks = {b for b in range(len(f.blocks)) if any(b in mir.reachable(f, s2) for s2 in mir.succs(f, b))}
+    cmps = [(bi, t) for bi, t in f.calls() if bi in loop_blocks and len(t[2]) == 2 and ((mir.callee(t) or "").endswith("compare_version_objects") or (mir.callee(t) or "").endswith("::cmp") or (mir.callee(t) or "").endswith("::partial_cmp"))]
+    if not cmps: return "unknown", "no max_by and no comparison inside a loop"
+    verdict = None
+    for bi, t in cmps:
+        kinds = []
+        for a in t[2]:
+            from_next = other = False
+            for o in mir.trace_op(f, a):
+                if o.kind == "call" and (mir.callee(o.fn.blocks[o.data]["t"]) or "").endswith("Iterator>::next") and o.data in loop_blocks: from_next = True
+                else: other = True
+            kinds.append((from_next, other))
+        elem = [k for k in kinds if k[0] and not k[1]]
+        best = [k for k in kinds if k[0] and k[1]]
+        fixed = [k for k in kinds if not k[0]]
+        if len(elem) == 1 and len(best) == 1: verdict = verdict or ("running-max", None)
+        elif len(elem) == 1 and len(fixed) == 1: return "fixed-compare", "%s bb%d line %s" % (f.where(), bi, f.blocks[bi]["line"])
+        else: return "unknown", "comparison operands %s" % kinds
+    return verdict or ("unknown", "no comparison recognised")
